@@ -11,6 +11,7 @@ unknown members included, is verified against exactly the bytes its author signe
 role separation; the byte-level statements rest on the injectivity of the canonical form (C11).
 -/
 import Tough.Model.Schema
+import Tough.Proofs.CJsonInj
 namespace Tough.C12
 open Tough.CJson Tough.Schema
 
@@ -193,6 +194,21 @@ theorem reser_roles_differ (env : Env) (k k' : Kind) (j j' v v' : JVal) (t t' : 
 theorem tags_differ : ∀ k k' : Kind, ∀ t t' : Str, tag k = some t → tag k' = some t' → k ≠ k' → t ≠ t' := by
   intro k k' t t' h h' hne
   cases k <;> cases k' <;> simp only [tag, Option.some.injEq, reduceCtorEq] at h h' <;> first | exact absurd rfl hne | (subst h; subst h'; decide)
+
+/-- **C12.c (the signed bytes determine what is used).** Two documents that tough reads as the same
+role and whose signatures it checks against the same bytes have the same re-serialised content up to
+the normal form of C11 (string normalisation, member order, a later duplicate replacing an earlier one):
+whoever changes a value that survives parsing — at any nesting level, inside members tough merely
+carries along included — changes the bytes, and with unforgeable signatures the document is refused.
+(Uses the injectivity of the canonical form, `canon_injective`.) -/
+theorem signed_bytes_determine_content (env : Env) (hn : NfcOk env.nfc) (k : Kind) (j j' v v' : JVal)
+    (hv : reser env k j = some v) (hv' : reser env k j' = some v')
+    (val : validJ v = true) (val' : validJ v' = true)
+    (b : Bytes) (hm : message env k j = some b) (hm' : message env k j' = some b) :
+    nrm env.nfc v = nrm env.nfc v' := by
+  simp only [message, hv] at hm
+  simp only [message, hv'] at hm'
+  exact canon_injective hn v v' val val' b hm hm'
 
 /-! ### Witnesses -/
 
